@@ -27,7 +27,7 @@ CLAIMED.update({
 NOT_YET = {}
 # properties built by sub-tasks: MANIFEST text is taken from notes/Cxx.md (sections **level_claimed.text**, **level_note**,
 # **technique**) once the check has been verified by the owner and listed here
-ACCEPTED_FROM_NOTES = ['C07', 'C08', 'C09']
+ACCEPTED_FROM_NOTES = ['C07', 'C08', 'C09', 'C11']
 
 def from_notes(pid):
     import re
